@@ -268,7 +268,8 @@ void harness_step(void)
 void harness_step(void)
 {
 	short what = (short)vp_u16();
-	int closedetect, had_err_cb, si;
+	int closedetect, had_err_cb, si, chunked0;
+	ev_int64_t ntoread0;
 	vp_evcon = mk_conn(1);
 	si = (int)vp_range(1, 7);
 	vp_evcon->state = vp_states[si];
@@ -287,6 +288,8 @@ void harness_step(void)
 	if (vp_bool()) vp_evcon->flags |= EVHTTP_CON_READ_ON_WRITE_ERROR;
 	vp_bev_in.len = vp_range(0, 3);
 	had_err_cb = vp_nreq > 0 && vp_req[0]->error_cb != NULL;
+	chunked0 = vp_nreq > 0 && vp_req[0]->chunked;
+	ntoread0 = vp_nreq > 0 ? vp_req[0]->ntoread : 0;
 	/* what a bufferevent reports: at least one of the event bits */
 	__CPROVER_assume((what & ~(BEV_EVENT_READING | BEV_EVENT_WRITING | BEV_EVENT_EOF | BEV_EVENT_ERROR | BEV_EVENT_TIMEOUT | BEV_EVENT_CONNECTED)) == 0 && what != 0);
 
@@ -302,6 +305,17 @@ void harness_step(void)
 		if (vp_nreq == 2 && vp_cb_calls[1] != 0)
 			VP_ASSERT(vp_retry_assigned == 0 && (vp_bev_free_calls == 1 || vp_evcon->state == EVCON_DISCONNECTED), "C27: the second request is completed only when the connection gives up all requests");
 		VP_ASSERT(vp_cb_calls[1] <= 1, "C27: second request completed at most once");
+		/* an error/EOF event may only turn into a SUCCESSFUL completion (callback with the response) when the peer's
+		 * close is what delimits the body: reading a body without Content-Length and without chunked framing, and the
+		 * event is a clean EOF on read.  A chunked body ends with its last-chunk, a Content-Length body with its last
+		 * octet: EOF before that is a truncated response and must be reported as a failure (NULL request).
+		 * (The other way a request object reaches its callback here is evhttp_connection_cb_cleanup giving up after a
+		 * connect timeout: the request is handed back without a response, response_code 0.) */
+		if (vp_cb_calls[0] == 1 && vp_cb_null[0] == 0 && !(vp_states[si] == EVCON_CONNECTING && (what & BEV_EVENT_TIMEOUT)))
+			VP_ASSERT(vp_states[si] == EVCON_READING_BODY && !chunked0 && ntoread0 < 0 && what == (BEV_EVENT_READING | BEV_EVENT_EOF),
+			    "C27: peer close completed a request successfully although its body is not close-delimited (truncated chunked / Content-Length response)");
+		if (vp_states[si] == EVCON_READING_BODY && chunked0 && what == (BEV_EVENT_READING | BEV_EVENT_EOF) && vp_cb_calls[0] == 1 && vp_cb_null[0] == 1)
+			VP_WITNESS("EOF inside a chunked body failed the request");
 		if (vp_cb_calls[0] == 1 && vp_cb_null[0] == 1) VP_WITNESS("event failed the request");
 		if (vp_cb_calls[0] == 1 && vp_cb_null[0] == 0) VP_WITNESS("EOF completed a close-delimited response");
 		if (vp_cb_calls[0] == 0) VP_WITNESS("event left the request pending");
